@@ -720,7 +720,7 @@ class QueryBuilder(Selectable, Term):  # type:ignore[misc]
         self._for_update = False
         self._for_update_nowait = False
         self._for_update_skip_locked = False
-        self._for_update_of: set[str] = set()
+        self._for_update_of: tuple[str, ...] = ()
 
         self._wheres: QueryBuilder | Term | None = None
         self._prewheres: Criterion | None = None
@@ -1071,7 +1071,7 @@ class QueryBuilder(Selectable, Term):  # type:ignore[misc]
         self._for_update = True
         self._for_update_skip_locked = skip_locked
         self._for_update_nowait = nowait
-        self._for_update_of = set(of)
+        self._for_update_of = tuple(dict.fromkeys(of))
 
     @builder
     def do_nothing(self) -> "Self":  # type:ignore[return]
@@ -1637,10 +1637,12 @@ class QueryBuilder(Selectable, Term):  # type:ignore[misc]
             table=self._insert_table.get_sql(into_ctx),  # type:ignore[union-attr]
         )
 
-    def _from_sql(self, ctx: SqlContext) -> str:
+    def _from_sql(self, ctx: SqlContext, selectables: Sequence[Selectable] | None = None) -> str:
         from_ctx = ctx.copy(subquery=True, with_alias=True)
+        if selectables is None:
+            selectables = self._from
         return " FROM {selectable}".format(
-            selectable=",".join(clause.get_sql(from_ctx) for clause in self._from)
+            selectable=",".join(clause.get_sql(from_ctx) for clause in selectables)
         )
 
     def _force_index_sql(self, ctx: SqlContext) -> str:
